@@ -169,6 +169,10 @@ def run(pid, tier, seed, replay, t0):
         # an open known finding that did not reproduce is still announced (the defect is recorded, not fixed)
         if not any(("KNOWN-FINDING: property=%s %s" % (pid, k["what"])) == l for l in out_lines):
             pass
+    drift = ev_.get("drift", [])
+    if drift:
+        out_lines.append("MODEL-DRIFT property=%s (helper outside the property's statement; not a violation): %d ops differ, first: %s -> impl %s, model %s%s" % (
+            pid, len(drift), drift[0]["line"][:80], drift[0]["impl"][:80], drift[0]["model"][:80], (", independent expectation: " + drift[0]["oracle"][:120]) if drift[0]["oracle"] else ""))
     names = rep["theorems"]
     discharged = sum(1 for n in names if rep["build_ok"] and rep["axioms"].get(n) is not None and set(rep["axioms"][n]) <= core.ALLOWED_AXIOMS)
     ev = {
@@ -190,6 +194,8 @@ def run(pid, tier, seed, replay, t0):
             "class_histogram": dict(collections.Counter(c["klass"].split(":")[0] for c in cases).most_common(12)),
             "direct": {k: v for k, v in (dres or {}).items() if k not in ("failures", "classes")},
             "exhaustive": False,
+            "model_drift_outside_property": {"ops_differing": len(drift), "first": drift[:3],
+                                             "note": "get_bit / escapeall / hextable / tow2utc are modelled (Model/Helpers.lean) and compared on every run, but they are not part of any property's statement: a difference is reported, it is not a violation"},
             "source_delta_stage": fuzz_info or "not run: the modelled code files equal the baseline the model was validated against",
             "soak": ({k: v for k, v in soak.items() if k not in ("classes", "disagreements", "failures")} if soak else None),
         },
@@ -223,6 +229,7 @@ def evaluate(pid, ctx, tables, props, impl):
     model_out = core.run_driver(lines) if lines else []
     disagreements = []
     failures = []
+    drift = []
     klasses = set()
     evals = 0
     agree = 0
@@ -232,6 +239,16 @@ def evaluate(pid, ctx, tables, props, impl):
         evals += 1
         mc = impl.canon_model(mo, tables)
         ok = (mc == io_)
+        if c.get("meta", {}).get("advisory"):
+            # model coverage beyond the property's statement (small public helpers): a difference is reported as
+            # MODEL-DRIFT in the output and the evidence, never as a violation of this property
+            r = props.ORACLES[c["oracle"][0]](io_, c["oracle"][1], ctx) if c["oracle"] else None
+            if ok and not r:
+                agree += 1
+                klasses.add(c["klass"])
+            else:
+                drift.append({"line": c["line"][:300], "klass": c["klass"], "model": mc[:300], "impl": io_[:300], "oracle": r})
+            continue
         if ok:
             agree += 1
             if not (io_.startswith("lib:") and c["klass"].startswith("short")):
@@ -258,7 +275,7 @@ def evaluate(pid, ctx, tables, props, impl):
             failures.append(f)
         klasses |= set(dres.get("classes", []))
     return {"cases": cases, "disagreements": disagreements, "failures": failures, "klasses": klasses, "evals": evals,
-            "agree": agree, "samples": samples, "dres": dres, "broken": broken,
+            "agree": agree, "samples": samples, "dres": dres, "broken": broken, "drift": drift,
             "fuzz": ({k: v for k, v in fz.items() if k != "cases"} if fz else None)}
 
 
@@ -432,7 +449,7 @@ def search(pid, ctx, props, impl, disagreements, tables, seed, cases=()):
                 failures.append({"line": d["line"], "extra": d["extra"], "klass": d["klass"], "what": r, "impl": d["impl"], "oracle": d["oracle"]})
     if failures:
         return failures, n
-    if disagreements and all(d["line"].split()[0] in ("msg", "parse", "helpers", "names", "setattr", "crc", "brepr", "beval", "mrepr", "lay", "conc") for d in disagreements[:40]):
+    if disagreements and all(d["line"].split()[0] in ("msg", "parse", "helpers", "names", "setattr", "crc", "brepr", "beval", "mrepr", "lay", "conc", "getbit", "escall", "tow", "hextbl") for d in disagreements[:40]):
         # history dependence: the same op in a fresh interpreter must give the same answer
         import subprocess
         for d in disagreements[:40]:
